@@ -1,6 +1,6 @@
 #!/bin/bash
 # usage: thorough_some.sh <ID>...   runs the thorough check of the given properties once; one line per check
-cd "$(dirname "$0")"
+cd "$(dirname "$0")"; mkdir -p work
 for id in "$@"; do
   S=$(date +%s); OUT=$(./check $id --tier thorough 2>work/thorough_some.err); RC=$?
   echo "$id thorough exit=$RC $(( $(date +%s) - S ))s $(echo "$OUT" | grep -c '^VIOLATION') violations"
